@@ -204,19 +204,23 @@ structure SarifLoc where
   ctx : Option CtxRegion
 deriving DecidableEq, Repr
 
+/-- `snippet_lines[index] if 0 <= index < len(snippet_lines) else None` (since /repo fix "SARIF snippet
+index"): the excerpt is centred on the reported line, so the first line of a long range may lie above it -/
+def snippetAt (lines : List Str) (i : Int) : Option Str :=
+  if 0 ≤ i then lines[i.toNat]? else none
+
 /-- the `if code:` block: `(first_line_number, snippet_lines, snippet_line)` -/
-def parseSnippet (range : List Nat) (code : Str) : M (Option (Nat × List Str × Str)) :=
+def parseSnippet (range : List Nat) (code : Str) : M (Option (Nat × List Str × Option Str)) :=
   if code.isEmpty then pure none else do
     let (first, lines) ← parseCode code
     let r0 ← pyIndex range 0
-    let snip ← pyIndex lines ((r0 : Int) - first)
-    pure (some (first, lines, snip))
+    pure (some (first, lines, snippetAt lines ((r0 : Int) - first)))
 
 /-- building `region` and `context_region` from the parsed excerpt -/
-def regionOf (range : List Nat) (col endCol : Int) (parsed : Option (Nat × List Str × Str)) : M SarifLoc := do
+def regionOf (range : List Nat) (col endCol : Int) (parsed : Option (Nat × List Str × Option Str)) : M SarifLoc := do
   let r0 ← pyIndex range 0
   let r1 ← if range.length > 1 then pyIndex range 1 else pure r0   -- `line_range[1]`: the SECOND line, not the last
-  let region : Region := ⟨r0, r1, col + 1, endCol + 1, parsed.map (·.2.2)⟩
+  let region : Region := ⟨r0, r1, col + 1, endCol + 1, parsed.bind (·.2.2)⟩
   pure ⟨region, parsed.map fun (first, lines, _) =>
     ⟨first, (first : Int) + lines.length - 1, lines.flatten⟩⟩
 
